@@ -288,9 +288,9 @@ void* _GD_Alloc(DIRFILE* D, gd_type_t type, size_t n)
   void* ptr = NULL;
 
   dtrace("%p, 0x%x, %" PRIuSIZE, D, type, n);
-  if (type == GD_NULL)
-    ; /* just return the NULL */
-  else if (n * GD_SIZE(type) == 0)
+  if (type == GD_NULL || n == 0)
+    ; /* nothing to allocate: just return the NULL */
+  else if (GD_SIZE(type) == 0)
     _GD_InternalError(D);
   else
     ptr = _GD_Malloc(D, n * GD_SIZE(type));
